@@ -84,6 +84,10 @@ def skeleton_line(name, params, rec, rho, d_attrs):
 
 def main(chk):
     chk.prove()
+    tok, tmsg = getattr(chk, 'translators', {}).get('budget', (True, ''))
+    if not tok:
+        chk.violation(dict(kind='translator'), 'the budget arithmetic of mechanisms/*.py left the translated subset: the ledger theorems about the generated formulas are not re-checked against the current source',
+                      dict(broken='Gen/Budget_gen.v (translator/py2gallina_budget.py on mechanisms/{aim,mst,mwem+pgm,adaptive_grid}.py); Props/C05.v C05_src_*', translator_message=tmsg), found_input=False)
     rng = chk.rng
     plan = []
     reps = 4 if chk.tier == 'quick' else 30
